@@ -17,7 +17,7 @@ def make_cases(progs, tier):
     """run 0 of each program first (to count callback invocations), then the faulted runs"""
     cases = []
     for pi, (text, names) in enumerate(progs):
-        cases.append({"id": f"p{pi}.r0", "trace": 1, "fork": 1, "to": 20,
+        cases.append({"id": f"p{pi}.r0", "trace": 1, "to": 20,
                       "steps": [{"op": "eval", "src": text}, {"op": "locals"}, {"op": "eval", "src": SANITY}]})
     return cases
 
@@ -118,7 +118,7 @@ def run(ck, tier, seed):
             for kind in kinds:
                 cid = f"p{pi}.cb{k}.k{kind}"
                 meta[cid] = (text, names, f"callback invocation {k} throws kind {kind}")
-                cases.append({"id": cid, "trace": 1, "fork": 1, "to": 20, "fault": {"at": k, "kind": kind},
+                cases.append({"id": cid, "trace": 1, "to": 20, "fault": {"at": k, "kind": kind},
                               "steps": [{"op": "eval", "src": text}, {"op": "locals"}, {"op": "eval", "src": SANITY}]})
         sv = site_variants(text)
         if quick:
@@ -126,7 +126,7 @@ def run(ck, tier, seed):
         for k, tag, t2 in sv:
             cid = f"p{pi}.site{k}.{tag}"
             meta[cid] = (t2, names, f"script-level {tag} at callback site {k}")
-            cases.append({"id": cid, "trace": 1, "fork": 1, "to": 20,
+            cases.append({"id": cid, "trace": 1, "to": 20,
                           "steps": [{"op": "eval", "src": t2}, {"op": "locals"}, {"op": "eval", "src": SANITY}]})
     obs, traces = lib.run_driver(vdrive, cases, work, tag="faults", trace=True)
     obs.update(obs0)
